@@ -587,11 +587,22 @@ func (e *Engine) applyContract(fc *fnCtx, st *State, c *Contract, args []Val, po
 	return Val{S: "Tuple", Tuple: results, GoT: rt}
 }
 
+// isQualifiedGhost: pkg.ghostVar of an imported package.
+func (e *Engine) isQualifiedGhost(env *SpecEnv, x SSel) bool {
+	if id, ok := x.X.(SIdent); ok {
+		if pkg := e.importedPkgIfUnbound(env, id.Name); pkg != nil {
+			_, ok := e.w.Ghosts[pkg.Path()+"."+x.Sel]
+			return ok
+		}
+	}
+	return false
+}
+
 // havocDesignator applies one `modifies` designator to st.
 func (e *Engine) havocDesignator(env *SpecEnv, st *State, d SExpr) {
 	// p.f where p may be the address of a struct field of the function under verification (an interior pointer): the
 	// location lives inside the owner's struct-valued field, which is what has to change
-	if x, ok := d.(SSel); ok {
+	if x, ok := d.(SSel); ok && !e.isQualifiedGhost(env, x) {
 		base := e.trSpec(env, x.X)
 		if base.GoT != nil {
 			if pt, ok := base.GoT.Underlying().(*types.Pointer); ok {
@@ -646,6 +657,15 @@ type heapLoc struct {
 func (e *Engine) designatorLocs(env *SpecEnv, d SExpr) []heapLoc {
 	switch x := d.(type) {
 	case SSel:
+		if id, ok := x.X.(SIdent); ok {
+			if _, bound := env.vars[id.Name]; !bound {
+				if pkg := e.importedPkgIfUnbound(env, id.Name); pkg != nil {
+					if g, ok := e.w.Ghosts[pkg.Path()+"."+x.Sel]; ok {
+						return []heapLoc{{"GH_" + g.Pkg.PkgPath + "." + g.Name, e.sortOf(g.Type), ""}}
+					}
+				}
+			}
+		}
 		base := e.trSpec(env, x.X)
 		t := base.GoT
 		if t == nil {
